@@ -1,7 +1,7 @@
 (* C09 Link: what gogen regenerates from lib/collection/rollingwindow.go and
    lib/load/adaptiveshedder.go is what the model and the statements use; soundness of the
    executable window checker used by Exec.spec_ok. *)
-From God Require Import Base.Prelude C09.GenEnv C09.RW C09.Spec C09.WProofs C09.Model C09.Exec.
+From God Require Import Base.Prelude C09.GenEnv C09.RW C09.Spec C09.WProofs C09.Model C09.Integ C09.Exec.
 From Coq Require Import QArith String.
 From GodGen Require C09_Gen.
 Local Open Scope Z_scope.
@@ -107,3 +107,15 @@ Lemma link_shedint_calls :
     "sheddingStat.IncrDrop"; "return"; "defer:func"; "{"; "promise.Fail"; "sheddingStat.IncrPass"; "promise.Pass"; "}";
     "handler"; "return"; "return"]%string.
 Proof. reflexivity. Qed.
+
+(* ---- lib/stat/usage.go: beta = 0.95, refreshed every 250 ms; the refresh closure loads the previous value, combines it
+        with the fresh sample and swaps the result in (no branch on the previous value: no other call appears) ---- *)
+Lemma link_usage :
+  C09_Gen.beta = (19 # 20)%Q /\ C09_Gen.cpuRefreshInterval = 250000000 /\
+  C09_Gen.usage_init_calls = ["go:func"; "{"; "time.NewTicker"; "defer:cpuTicker.Stop"; "time.NewTicker"; "defer:allTicker.Stop";
+    "select"; "case:"; "recv:cpuTicker.C"; "internal.RefreshCpu"; "atomic.LoadInt64"; "float64"; "float64"; "int64";
+    "atomic.SwapInt64"; "threading.RunSafe"; "case:"; "recv:allTicker.C"; "logEnabled.True"; "printUsage"; "}"]%string.
+Proof. repeat split; reflexivity. Qed.
+(* cpu_next is that formula over Z: 95/100 = beta *)
+Lemma link_cpu_next : forall pre cur, cpu_next pre cur = (Qnum C09_Gen.beta * 5 * pre + (100 - Qnum C09_Gen.beta * 5) * cur) / 100.
+Proof. intros. reflexivity. Qed.
